@@ -233,7 +233,7 @@ def harness_run(vh, cmd, cases, timeout=600, shards=NCPU, args=()):
                 so, se = p.communicate()
                 hung = True
             got = []
-            for l in so.splitlines():
+            for l in so.split("\n"):      # not splitlines(): U+2028 etc. inside JSON strings are not line ends
                 if l.strip():
                     try:
                         got.append(json.loads(l))
